@@ -80,6 +80,9 @@ func NewVoteDB(db youdb.Database, rawSk *ecdsa.PrivateKey) *VoteDB {
 	precommit := ReadVoteData(v.db, v.addr, Precommit, 1)
 	updateFn(precommit)
 
+	certificate := ReadVoteData(v.db, v.addr, Certificate, 1)
+	updateFn(certificate)
+
 	nextIndex1 := ReadVoteData(v.db, v.addr, NextIndex, 1)
 	updateFn(nextIndex1)
 
